@@ -213,13 +213,13 @@ def run_harness(hx_exe, lines, timeout=600):
     return rc, out.decode(errors="replace").splitlines(), err.decode(errors="replace")
 
 
-def run_chunk(hx_exe, drv, cases, leak):
+def run_chunk(hx_exe, drv, cases, leak, timeout=120):
     """returns (crash_info or None)"""
     hl = []
     for c in cases:
         for key, l in c.harness_lines():
             hl.append((c, key, l))
-    rc, out, err = run_harness(hx_exe, [l for _, _, l in hl])
+    rc, out, err = run_harness(hx_exe, [l for _, _, l in hl], timeout=timeout)
     crash = None
     if rc != 0 or len(out) != len(hl):
         # the line after the last answered one crashed / hung
@@ -388,8 +388,10 @@ def gen_cases(rng, n, per_grammar=3, max_depth=4, features=None, context=False):
     return out[:n]
 
 
-def shrink(case, still_fails):
-    """greedy structural minimisation of the grammar and the text while `still_fails(case)` holds"""
+def shrink(case, still_fails, seconds=45):
+    """greedy structural minimisation of the grammar and the text while `still_fails(case)` holds (bounded wall time)"""
+    import time
+    t_end = time.time() + seconds
     def variants(p):
         for c in peggen.children(p):
             yield c
@@ -435,7 +437,8 @@ def shrink(case, still_fails):
             cands.append(Case(best.g, best.text, best.start, best.args[:-1], best.subst, best.origin))
         for c in cands:
             budget -= 1
-            if budget <= 0:
+            if budget <= 0 or time.time() > t_end:
+                budget = 0
                 break
             try:
                 if peggen.size(c.g) + len(c.text) < peggen.size(best.g) + len(best.text) + (1 if c.start < best.start else 0) and still_fails(c):
@@ -486,7 +489,7 @@ def run(ctx, only_cases=None):
     except BuildError as e:
         hx_exe = None
         broken.append("harness does not compile against the current tree: %s" % str(e)[-400:])
-    n = 2400 if quick else 40000
+    n = 2400 if quick else 250000
     if broken:
         n *= 3          # something no longer checks: search harder for a concrete failing input
     cases = corpus_cases() if only_cases is None else list(only_cases)
@@ -504,7 +507,7 @@ def run(ctx, only_cases=None):
         nchunks = max(1, min(32, len(rest) // 40))
         chunks = [[c] for c in solo] + [rest[i::nchunks] for i in range(nchunks)]
         with cf.ThreadPoolExecutor(16) as ex:
-            res = list(ex.map(lambda ch: run_chunk(hx_exe, drv, ch, leak), chunks))
+            res = list(ex.map(lambda ch: run_chunk(hx_exe, drv, ch, leak, 120 if quick else 900), chunks))
         crashes = [r for r in res if r]
         for c in cases:
             stats["harness_lines"] += 1 + len(c.real) + len(c.scan)
@@ -531,13 +534,16 @@ def run(ctx, only_cases=None):
             return any(d[0] == kind for d in compare(c2))
         return f
     reported = set()
-    for cr in crashes[:3]:
+    for cr in crashes[:4]:
         c = cr["case"]
         m = shrink(c, single_fails("crash"))
         run_chunk(hx_exe, drv, [m], leak)
         sig = "crash:" + peggen.janet_source(m.g)[:60]
+        if sig in reported:
+            continue
+        reported.add(sig)
         ctx.violation(sig, {"kind": "crash", "case": case_to_json(m), "line": cr["line"], "rc": cr["rc"], "stderr": cr["stderr"]},
-                      what="implementation crashed / sanitizer report in peg %s on %s" % (cr["entry"], m.describe()))
+                      what="implementation crashed / hung (rc None = timeout) / sanitizer report in peg %s on %s" % (cr["entry"], m.describe()))
     # property-level disagreements first: spec / ref / scan are oracles of the property itself
     order = {"spec": 0, "ref": 1, "scan": 2, "compile": 3, "op": 4, "den": 5}
     diffs_all.sort(key=lambda cd: (order[cd[1][0]], peggen.size(cd[0].g) + len(cd[0].text)))
